@@ -15,7 +15,7 @@ REQUIRED = [
 ]
 RULE = (
     "random Merkle DAGs of 0-40 real model objects (shared sub-trees, several roots, entries pointing outside the set, "
-    "duplicate targets) x downward-closed known sets (empty, all, random closure) x SAMPLE_SIZE in {1,2,3,1000} x "
+    "duplicate targets, the empty directory) x downward-closed known sets (empty, all, random closure) x SAMPLE_SIZE in {1,2,3,1000} x "
     "PRNG-scripted random.sample and set.pop; the recorded schedule is replayed on the Lean model; non-trivial = at "
     "least one directory with an entry inside the set; distinct by canonical JSON of (graph, known, schedule)"
 )
@@ -30,8 +30,11 @@ TRUSTED = ["Python set/dict semantics", "model.Content/SkippedContent/Directory 
 def gen_graph(rng, n):
     """returns list of nodes bottom-up: ('c'|'s'|'d', index, [child indices or 'out<k>'])"""
     nodes = []
+    empty_at = rng.randrange(n) if n and rng.random() < 0.4 else -1
     for i in range(n):
-        if i == 0 or rng.random() < 0.45:
+        if i == empty_at:
+            nodes.append(("e", i, []))  # the empty directory (at most one: equal objects are one object)
+        elif i == 0 or rng.random() < 0.45:
             nodes.append((rng.choice("ccs"), i, []))
         else:
             k = rng.choice([0, 1, 2, 2, 3, 4])
@@ -80,6 +83,8 @@ def materialise(case):
             objs[i] = model.Content.from_data(b"content-%d" % i)
         elif k == "s":
             objs[i] = model.SkippedContent.from_data(b"skipped-%d" % i, reason="too large")
+        elif k == "e":
+            objs[i] = model.Directory(entries=())
         else:
             entries = []
             for j, c in enumerate(kids):
@@ -118,7 +123,7 @@ def check_cases(ctx, cases):
         order = case["order"]
         contents = [objs[i] for i in order if case["nodes"][i][0] == "c"]
         skipped = [objs[i] for i in order if case["nodes"][i][0] == "s"]
-        dirs = [objs[i] for i in order if case["nodes"][i][0] == "d"]
+        dirs = [objs[i] for i in order if case["nodes"][i][0] in ("d", "e")]
         known_ids = {oid(objs[i]) for i in case["known"]}
         num = {}
         for i in range(n):
